@@ -67,7 +67,7 @@ Qed.
 Theorem path_length_ignores_image_index_refuted :
   exists (n_img opd xc yc zc Rr L M N : R),
     L * L + M * M + N * N = 1 /\ 0 <= Rr /\
-    k_wf_path_length ROps xc yc zc Rr [opd] [xc] [yc] [zc] [L] [M] [N]
+    k_wf_get_path_length ROps xc yc zc Rr [opd] [xc] [yc] [zc] [L] [M] [N]
     <> path_to_sphere 0 opd n_img (t_xp xc yc zc Rr xc yc zc L M N [] [] [] [] [] []).
 Proof.
   exists 2, 10, 0, 0, 0, 5, 0, 0, 1.
